@@ -2523,8 +2523,9 @@ def crosstab(
                 [all_levels[lvl] for lvl in column_levels]
             )
 
-        # select by label: a plain list of boolean column labels would be taken as a row mask
-        table = table.reindex(columns=[c for c in columns if c in table.columns])
+        # select by position: a plain list of boolean column labels would be taken as a row mask
+        keep = [c for c in columns if c in table.columns]
+        table = table.iloc[:, table.columns.get_indexer(keep)]
 
     return table
 
